@@ -1,10 +1,20 @@
 (* C02 — single-caller behaviour matches a reference hierarchical filesystem.
-   The reference comparison is decided on the implementation (afero OsFs run side by side) and the
-   model is tied by the correspondence run; machine-checked so far: rejected read-only calls and
-   the no-op renames change nothing (DESIGN.md §3 C02). *)
+   PROVED (Proofs/T02*.v): a small executable reference over an abstract namespace (name -> node: kind, mode, owner,
+   times, size, content id): spec_mkdir, spec_mkdirall, spec_remove, spec_remove_all, spec_rename, spec_chmod,
+   spec_chown, spec_chtimes, spec_create_file; abstraction abs = the live rows of the index.  For every state that
+   is Good (C01's tape/index invariant, consistent size records, tree-shaped namespace) and every one of these nine
+   calls with a cleaned absolute name, the model's call returns the reference's outcome and leaves exactly the
+   reference's namespace (what changed and that nothing else did), and the state stays Good (C02_step); Good holds
+   after Initialize (C02_init_good); hence every history of such calls conforms call by call (C02_history).
+   Hypotheses: plain configuration, not read-only (the read-only half is C02_readonly_refuses), header-block counts
+   >= 1, the root is not removed / renamed onto, and create_pre for CreateFile, which excludes the two recorded
+   deviations (Proofs/T02Counter.v): content written through a handle resets the owner to 0:0 (known finding
+   C02-owner-reset-on-flush) and re-creating an existing file keeps its mtime.  OpenFile with arbitrary flags
+   (CWriteFile) and the relation of abs to the walk (C13_walk_all_histories) are not part of these theorems.
+   The reference itself is validated against afero OsFs by the side-by-side runs on the implementation. *)
 From Coq Require Import List NArith ZArith Bool.
 Import ListNotations.
-From STFS Require Import Str Db Tape Index Ops Fs Diff TapeLemmas Append.
+From STFS Require Import Str Db Tape Index Ops Fs Diff Norm TapeLemmas Append C01Str C01Sim T02Ns T02Spec.
 Open Scope N_scope.
 
 Definition mutator (k : call) : bool :=
@@ -22,4 +32,33 @@ Proof.
     unfold fs_mkdir, fs_mkdirall, fs_remove, fs_removeall, fs_rename, fs_update_meta, fs_create; rewrite Hro; reflexivity.
 Qed.
 
+Theorem C02_step : forall (hr : bool) (c : cfg), plain c -> 0 < c_rs c -> c_readonly c = false ->
+  forall (s : sys) (e : env) (k : call), Good hr c s -> hb_env e -> call_pre c (abs s) k ->
+  let '(s', o) := step c (with_env s e) k in
+  exists cid sp, spec_call c (abs s) k (ev_now e) cid = Some sp /\
+    Good hr c s' /\ o = snd sp /\ ns_eq (abs s') (fst sp).
+Proof. exact T02_step. Qed.
+
+Theorem C02_init_good : forall c e, 0 < c_rs c -> c_readonly c = false -> hb_env e ->
+  Good true c (fst (step c (with_env init_sys e) (CInitialize [slash]))).
+Proof. exact Good_init. Qed.
+
+Theorem C02_history : forall (hr : bool) (c : cfg), plain c -> 0 < c_rs c -> c_readonly c = false ->
+  forall (r : list (call * env)) (s : sys), Good hr c s -> ok_run c s r -> conforms c s r /\ Good hr c (final c s r).
+Proof. exact T02_history. Qed.
+
+(* the subtree operations, stated on their own: exactly the reference's namespace *)
+Theorem C02_rename : forall (hr : bool) (c : cfg), plain c -> 0 < c_rs c -> c_readonly c = false ->
+  forall s e old new, Good hr c s -> hb_env e -> good old -> good new -> new <> [slash] ->
+  let '(s', o) := step c (with_env s e) (CRename old new) in
+  Good hr c s' /\ o = snd (spec_rename (abs s) old new) /\ ns_eq (abs s') (fst (spec_rename (abs s) old new)).
+Proof. exact T02_rename. Qed.
+Theorem C02_remove_all : forall (hr : bool) (c : cfg), plain c -> 0 < c_rs c -> c_readonly c = false ->
+  forall s e n, Good hr c s -> hb_env e -> good n -> n <> [slash] ->
+  let '(s', o) := step c (with_env s e) (CRemoveAll n) in
+  Good hr c s' /\ o = snd (spec_remove_all (abs s) n) /\ ns_eq (abs s') (fst (spec_remove_all (abs s) n)).
+Proof. exact T02_remove_all. Qed.
+
 Print Assumptions C02_readonly_refuses.
+Print Assumptions C02_step.
+Print Assumptions C02_history.
